@@ -4,7 +4,7 @@ from evalutil import *
 
 ID = "C09"
 LEVEL = "proof"
-MODULES = ["H3Proofs.Props.C09", "H3Proofs.Props.C09Hex", "H3Proofs.Props.C09Dist"]
+MODULES = ["H3Proofs.Props.C09", "H3Proofs.Props.C09Hex", "H3Proofs.Props.C09Dist", "H3Proofs.Props.C09Round"]
 THEOREMS = "auto"
 ASSUMPTIONS = ["hand-written model of cellToLocalIjk / localIjkToCell / gridDistance with the regenerated pentagon "
                "rotation tables, tied to the code by exact correspondence"]
@@ -12,8 +12,11 @@ ASSUMPTIONS.append("inside a hexagon base cell, at every resolution: gridDistanc
                    "difference = graph distance of the ideal lattice (C09Dist), symmetric, 1 for neighbours, and a lower bound "
                    "for every walk that stays inside the base cell")
 NOT_PROVED = ["gridDistance = graph distance across base-cell boundaries and near pentagons is evaluated (BFS over the library's own k=1 disks), not proved",
-              "cellToLocalIj / localIjToCell mutually inverse: exercised by correspondence + evaluator"]
-EXPLANATION = ("validation/normalisation theorems on the model; exact correspondence of the five local-IJ functions; "
+              "cellToLocalIj / localIjToCell mutually inverse: PROVED inside a hexagon base cell at every resolution, both "
+              "directions (C09Round: localIj_roundtrip, localIj_inverse); across base-cell boundaries and in pentagon base "
+              "cells (unfolding tables) exercised by correspondence + evaluator"]
+EXPLANATION = ("inside a hexagon base cell, every resolution: cellToLocalIj and localIjToCell are mutually inverse (digit recovery by the "
+               "rounding up-aperture steps, no overflow guard fires), gridDistance = lattice graph distance; validation/normalisation theorems on the model; exact correspondence of the five local-IJ functions; "
                "the evaluator compares gridDistance with breadth-first distance, checks symmetry, both round trips and "
                "unit steps away from pentagons")
 
